@@ -53,6 +53,10 @@ def gen_case(seed, tier, idx):
     dt = rs.choice([0.1, 0.05, 0.01, 0.25, 0.037, 1 / 3])
     n = rs.choice([2, 3, 5, 8, 13, 25, 40])
     frac = rs.choice([0.0, 0.0, 0.5, 0.9, 1e-9])
+    omit_dt = rs.random() < 0.05
+    if omit_dt:
+        dt = 1e-3  # the documented default step; the call omits dt
+        n = rs.choice([5, 13, 25])
     T = t0 + (n - frac) * dt
     rcut = st.get("cuts")
     k = rcut.choice([1, 2, 2, 3, 4, 6, 8])
@@ -70,7 +74,7 @@ def gen_case(seed, tier, idx):
             "ts_dtype": rs.choice(["same", "same", "same", "float64", "float32"]),
             "adaptive_only": rs.choice([None, None, None, {"dt_min": 0.2}, {"dt_min": 10 * dt, "rtol": 1e-2}]),
             # a Brownian peer of another dtype is only accepted by the element-wise (diagonal) code paths
-            "logqp": rs.random() < 0.12,
+            "logqp": rs.random() < 0.12, "omit_dt": omit_dt,
             "bm_dtype": "same",  # (a Brownian peer of another dtype than the state is not a supported input: most code paths raise)
             "cuts": cuts, "crashes": crashes, "outputs": outputs,
             "cache_size": rs.choice([45, 2, 0]), "fault_rate": bm.gen_fault_rate(st.get("faults")),
@@ -130,8 +134,9 @@ def run_case(case, keep_log=False):
         def call(sde, rec, ts, y, extra_state, tag):
             try:
                 with torch.no_grad():
-                    out = torchsde.sdeint(sde, y, ts, bm=rec, method=solver["method"], dt=dt, extra=True,
-                                          extra_solver_state=extra_state, logqp=logqp, **kw)
+                    dtkw = {} if case.get("omit_dt") else {"dt": dt}
+                    out = torchsde.sdeint(sde, y, ts, bm=rec, method=solver["method"], extra=True,
+                                          extra_solver_state=extra_state, logqp=logqp, **dtkw, **kw)
                     if logqp:
                         ys_, lr_, ex_ = out
                         lrs[tag] = (ts, lr_)
